@@ -263,8 +263,9 @@ class Lattice(keras.layers.Layer):
           more details.
         - `random_uniform_or_linear_initializer`: if the lattice has a single
           joint unimodality constraint group encompassing all features then use
-          the Keras 'random_uniform' initializer; otherwise, use TFL's
-          'linear_initializer'.
+          the Keras 'random_uniform' initializer (sampling from the
+          initialization range if output bounds or init_min/init_max are set);
+          otherwise, use TFL's 'linear_initializer'.
         - Any Keras initializer object.
       kernel_regularizer: None or a single element or a list of following:
         - Tuple `('torsion', l1, l2)` where l1 and l2 represent corresponding
@@ -633,10 +634,18 @@ def create_kernel_initializer(kernel_initializer_id,
       "random_uniform_or_linear_initializer", "RandomUniformOrLinearInitializer"
   ]:
     if do_joint_unimodalities_contain_all_features(joint_unimodalities):
-      return create_kernel_initializer("random_uniform", lattice_sizes,
-                                       monotonicities, output_min, output_max,
-                                       unimodalities, joint_unimodalities,
-                                       init_min, init_max)
+      if (output_min is None and output_max is None and init_min is None and
+          init_max is None):
+        return create_kernel_initializer("random_uniform", lattice_sizes,
+                                         monotonicities, output_min, output_max,
+                                         unimodalities, joint_unimodalities,
+                                         init_min, init_max)
+      # Keras 'random_uniform' samples around 0 whatever the output bounds are.
+      # Sample from the initialization range instead when there is one.
+      if init_min is None and init_max is None:
+        init_min, init_max = lattice_lib.default_init_params(
+            output_min, output_max)
+      return keras.initializers.RandomUniform(init_min, init_max)
     return create_kernel_initializer("linear_initializer", lattice_sizes,
                                      monotonicities, output_min, output_max,
                                      unimodalities, joint_unimodalities,
